@@ -11,7 +11,25 @@ Class invariants (from the statement), over a View v with store S, filter p, mar
 from pyvc.api import *
 
 CLAIM = "other"
-EXPLANATION = "see bottom of file (set after the scenarios are defined)"
+EXPLANATION = (
+    "T1 proves that every View operation (add, update, remove, _refilter via toggle_marked/set_filter, _base_add, clear, clear_not_marked, "
+    "set_order, set_reversed, __getitem__/index/__len__/__contains__/_rev, Focus._sig_view_add/_remove/_refresh + flow setter, Settings "
+    "handlers, _OrderKey.__call__/refresh) preserves the class invariants Vis/Ord/Foc/Set and sends exactly the matching notifications, "
+    "from an arbitrary invariant-satisfying pre-state over three flows with symbolic marks, filter verdicts, sort keys, direction and "
+    "focus-follow flag; all histories follow by induction over operations. Two recorded findings are excluded by their class predicates "
+    "(KF-C43-1 marked-only ignored by add/update; KF-C43-2 stale cached sort keys). It is 'other' rather than 'proof' because "
+    "sortedcontainers is replaced by a trusted sorted-multiset contract in proof mode, the pool is bounded to three flows, and the "
+    "complete-refresh path is proved compositionally (_refilter against the contracts of _base_add and Focus._sig_view_refresh). "
+    "T2 runs the real View with the real sortedcontainers against a reference model."
+)
+ASSUMPTIONS = [
+    "sortedcontainers.SortedKeyList is replaced (proof mode only) by the contract `install_sorted_model`: sorted multiset by the key evaluated at insertion; add inserts after equal keys; remove/index/__contains__ find an element by identity among entries whose stored key equals key(x), else ValueError/False; bisect_right, clear, update, __len__, __getitem__, __iter__ as for a list. Native replays and T2 use the real library",
+    "the filter is an uninterpreted predicate (one symbolic verdict per flow, constant during an operation); flowfilter.match_all is the constant-true filter",
+    "OrderKeySize.generate is abstracted to an arbitrary integer per flow; OrderRequestStart.generate is executed from source; two orders (time, size) are registered in the T1 pre-state",
+    "pool of three flows (HTTPFlow objects with symbolic id-independent attributes; not live, so remove() does not kill); View.remove/add/update are called with one flow per call (the loop body is the unit of proof)",
+    "weak references to signal receivers stay alive; receivers are the real Focus/Settings handlers plus scenario loggers",
+    "compositional steps: scenario refilter replaces View._base_add by a ghost append and detaches the Focus handler (their contracts are scenarios base_add and focus.refresh); scenario clear (clear_not_marked) replaces View._refilter by a ghost call",
+]
 V = "mitmproxy.addons.view:View"
 
 
